@@ -1,6 +1,6 @@
 """C15 (E5 configuration explorer): the case lattices of C01 C02 C04 C05 C06-C10
 C12 C17 executed in every world {gcc, clang} x -O0..-O3 with every PDU placed at
-a 16-byte boundary + 0..7; plus a clang -fsanitize=alignment world over the
+a 16-byte boundary + 0..7; plus clang -fsanitize=alignment worlds (one of them a Release build for x86-64-v3) over the
 same cases (every report is an access that assumes more than byte alignment)."""
 import concurrent.futures as cf
 import os, re, subprocess, time
@@ -18,12 +18,14 @@ def build_all(b, with_san=True):
     nf = core.build_native(os.path.join(b, 'native_f'), g, ['common.c', 'explore_fields.c'])
     ns = core.build_native(os.path.join(b, 'native_s'), g, ['common.c', 'explore_ser.c'])
     exes = {}
-    worlds = list(WORLDS) + ([('clang', '-O1', 'align'), ('clang', '-Os', 'align'), ('clang', '-O0', 'align')] if with_san else [])
+    # (the fourth sanitizer world is a CMake Release build for a newer instruction-set level: code behind NDEBUG and behind
+    # __SSSE3__/__AVX2__ is compiled there, under the alignment sanitizer)
+    worlds = list(WORLDS) + ([('clang', '-O1', 'align'), ('clang', '-Os', 'align'), ('clang', '-O0', 'align'), ('clang', '-O2', 'align', ('-DNDEBUG', '-march=x86-64-v3'))] if with_san else [])
     for w in worlds:
         cc, opt = w[0], w[1]
         san = len(w) > 2
-        name = '%s%s%s' % (cc, opt, '-align' if san else '')
-        flags = [opt, '-g'] + (['-fsanitize=alignment', '-fno-omit-frame-pointer'] if san else [])
+        name = '%s%s%s%s' % (cc, opt, 'rel' if len(w) > 3 else '', '-align' if san else '')
+        flags = [opt, '-g'] + (['-fsanitize=alignment', '-fno-omit-frame-pointer'] if san else []) + (list(w[3]) if len(w) > 3 else [])
         wobjs = core.build_world(os.path.join(b, 'w_' + name), g, cc=cc, cflags=flags, world_srcs=WSRC)
         o2 = os.path.join(b, 'w_' + name, 'wrap_bo2.o')
         core.par([[cc, '-std=gnu99', opt, *core.lib_flags(), '-DW_BO=w_bo2', '-DW_FORCE_BIG', '-Wno-builtin-macro-redefined', '-c',
@@ -64,11 +66,12 @@ def run(prop, tier):
     ltier = 'lite' if tier == 'quick' else 'quick'
     jobs = []
     for name, (ef, es) in exes.items():
+        lt = 'lite' if 'rel-' in name else ltier      # the release/x86-64-v3 sanitizer world: lite lattice in both tiers
         for off in offs:
             for s in FS:
-                jobs.append((name, off, s, [ef, '--suite', s, '--tier', ltier, '--off', str(off)]))
+                jobs.append((name, off, s, [ef, '--suite', s, '--tier', lt, '--off', str(off)]))
             for s in SS:
-                jobs.append((name, off, s, [es, '--suite', s, '--tier', ltier, '--off', str(off)]))
+                jobs.append((name, off, s, [es, '--suite', s, '--tier', lt, '--off', str(off)]))
     if tier == 'thorough':
         # the heavy suites: the quick lattice (sliced) at offsets 0 and 3, the lite lattice at the other six offsets
         def lite(c):
